@@ -189,25 +189,41 @@ func runC12(c *core.Ctx) {
 					_ = x
 				}
 			})
+			// the method may only forward to an unexported helper that is handed the flag value, the channel and the item
+			// (`sendUnlessClosed(x.isClosed, x.ch, item)`): the helper's body is then the body that is decided, with its
+			// parameters read as the values the method passes
+			body, up := sm, func(v ssa.Value) ssa.Value { return v }
+			if tgt, tc := core.ThinTarget(p, sm); tgt != nil && tgt.Object() != nil && !tgt.Object().Exported() {
+				body = tgt
+				up = func(v ssa.Value) ssa.Value {
+					for i, prm := range tgt.Params {
+						if core.Resolve(v) == ssa.Value(prm) && i < len(tc.Call.Args) {
+							return tc.Call.Args[i]
+						}
+					}
+					return v
+				}
+			}
 			isSend := func(ins ssa.Instruction) int {
-				if s, ok := ins.(*ssa.Send); ok && core.FieldKey(s.Chan) == box.field && core.FieldBase(s.Chan) == sm.Params[0].Name() && s.X == ssa.Value(sm.Params[1]) {
+				if s, ok := ins.(*ssa.Send); ok && core.FieldKey(up(s.Chan)) == box.field && core.FieldBase(up(s.Chan)) == sm.Params[0].Name() && core.Resolve(up(s.X)) == ssa.Value(sm.Params[1]) {
 					return 1
 				}
 				return 0
 			}
+			isFlag := func(v ssa.Value) bool { return flagRead(p, up(v), sm.Params[0].Name(), "isClosed", 0) }
 			// count on the not-closed edge of the closed-flag test (whichever way the guard is written)
-			start := edgeStart(sm, func(v ssa.Value) bool { return flagRead(p, v, sm.Params[0].Name(), "isClosed", 0) }, false)
+			start := edgeStart(body, isFlag, false)
 			min, max := 0, 0
 			if start != nil {
 				min, max = core.PathCountFrom(start, nil, isSend, nil)
 				// and nothing is sent on the closed edge
-				if cs := edgeStart(sm, func(v ssa.Value) bool { return flagRead(p, v, sm.Params[0].Name(), "isClosed", 0) }, true); cs != nil {
+				if cs := edgeStart(body, isFlag, true); cs != nil {
 					if _, cmax := core.PathCountFrom(cs, nil, isSend, func(b *ssa.BasicBlock) bool { return b == start || start.Dominates(b) }); cmax > 0 {
 						max = 100
 					}
 				}
 			} else {
-				min, max = core.PathCount(sm, isSend, nil)
+				min, max = core.PathCount(body, isSend, nil)
 			}
 			if bad == "" && !(min == 1 && max == 1) {
 				bad = fmt.Sprintf("sends its argument %d..%d times on the not-closed path (must be exactly 1)", min, max)
